@@ -15,7 +15,7 @@ from vlib import common as C
 ID = "C11"
 LEVEL = "proof"
 MANIFEST = {
-    "level_text": "Coq proofs (26 theorems, closed under the global context) that a function-for-function Gallina model "
+    "level_text": "Coq proofs (36 theorems, closed under the global context) that a function-for-function Gallina model "
                   "of bigint.c, dword.c's xxTimesDouble/xxModDouble and the fiBInt* wrappers of foam_i.c returns exact "
                   "results in normal form for ALL integers (induction over digit lists, no size bound): sum, difference, "
                   "product, Knuth's Algorithm D as coded (truncated quotient, remainder with the dividend's sign, "
@@ -429,12 +429,57 @@ def gen_script(tier, rng):
         while u:
             hs.append(u % 65536)
             u //= 65536
-        if len(hs) % 2 == 1 and hs:
-            # odd count: the C widens the caller's array in place and reads one U16 past it; give it a
-            # zero there (what genc's literals do is recorded in the report, not tested here)
-            pass
-        if len(hs) % 2 == 0 and hs:
-            add("frplacevs", ["b1" if v < 0 else "b0", "l" + ",".join("%x" % d for d in hs)], val=v)
+        # every count parity: an odd count is widened in place by the C (the harness array has room for it);
+        # high-order zero half-places allowed
+        hs2 = hs + [0] * rng.choice([0, 0, 1, 2, 3])
+        add("frplacevs", ["b1" if v < 0 else "b0", "l" + ",".join("%x" % d for d in hs2)], val=v)
+        add("rtplacevs", [canon(v)], val=v)
+    # 16-bit place boundaries: all-ones halves, a single high half, counts 0..9
+    for cnt in range(0, 10):
+        for pat in ([0xffff] * cnt, [0] * max(cnt - 1, 0) + [1] * min(cnt, 1), [0x8000] * cnt,
+                    [0xffff if i % 2 else 0 for i in range(cnt)], [0 if i % 2 else 0xffff for i in range(cnt)]):
+            v = sum(d << (16 * i) for i, d in enumerate(pat))
+            for neg in (False, True):
+                add("frplacevs", ["b1" if neg else "b0", "l" + ",".join("%x" % d for d in pat)], val=-v if neg else v)
+                add("rtplacevs", [canon(-v if neg else v)], val=-v if neg else v)
+
+    # ---- radix scan at the chunk boundaries of EVERY radix: 1..3 chunks of dio digits, +-1 digit, extreme digits
+    digs = "0123456789ABCDEFGHIJKLMNOPQRSTUVWXYZ"
+    for radix in range(2, 37):
+        dio, p = 0, 1
+        while p * radix < R:        # the widest chunk whose value fits a 32-bit place
+            p *= radix
+            dio += 1
+        for k in (1, 2, 3) if quick else (1, 2, 3, 5, 8):
+            for nd in (k * dio - 1, k * dio, k * dio + 1):
+                for body in (digs[radix - 1] * nd, "1" + "0" * (nd - 1), digs[radix - 1] + "0" * (nd - 1),
+                             "".join(rng.choice(digs[:radix]) for _ in range(nd))):
+                    v = int(body, radix)
+                    sign = rng.choice(["", "-", "+"])
+                    add("rscan", [tstr(sign + ("%dr" % radix) + body)], val=-v if sign == "-" else v, rest="")
+
+    # ---- bintShiftRem on the inputs on which the C is defined (Model.shiftrem_defined) and the result keeps the
+    # normal form (FactsShiftRem.shiftrem_normal); non-negative operands: "lowest n bits"
+    for v in pick([x for x in ALL if x >= 0], 500 if quick else 3000):
+        L = v.bit_length()
+        if -IMM_MAX <= v <= IMM_MAX:
+            ns = {0, 1, 2, 15, 16, 29, 30, rng.randint(0, 30), min(30, max(0, L - 1)), min(30, L)}
+        else:
+            places = (L + 31) // 32
+            ns = set()
+            for pa in {1, 2, places - 1, places, rng.randint(1, places)}:
+                if pa >= 1:
+                    for top in (1, 2, 15, 16, 29, 30, rng.randint(1, 30)):
+                        ns.add(32 * (pa - 1) + top)
+        for n in sorted(ns):
+            if not (-IMM_MAX <= v <= IMM_MAX):
+                pa = (n + 31) // 32
+                top = n - 32 * (pa - 1)
+                if pa > (L + 31) // 32 or not (1 <= top <= 30):
+                    continue
+                if pa >= 3 and ((v >> (32 * (pa - 1))) & ((1 << top) - 1)) == 0:
+                    continue            # result not normalised by the C: in the as-coded stream below
+            add("shiftrem", [canon(v), "z" + hx(n)], val=v % (1 << n))
     return lines
 
 
@@ -486,6 +531,19 @@ def gen_malformed(tier, rng):
                 lines.append((" ".join([op, a, b]), None))
         for op in ("neg", "abs", "length", "pred"):
             lines.append((" ".join([op, a]), None))
+    # bintShiftRem as coded where "lowest n bits" is not what it returns (negative operands: an immediate gives the
+    # two's complement bits, a stored number the bits of its magnitude and loses the sign) or where the result is
+    # left with high-order zero places; only model-vs-C agreement is checked
+    for a in ("i-5", "i-3fffffffffffffff", canon(-((1 << 70) + 5)), canon(-((1 << 100) - 1)), "s0:5,0,40", "s0:5,0,0,10",
+              canon((1 << 96) + (1 << 64) + 7)):
+        for n in (1, 3, 30, 33, 40, 62, 65, 70, 94):
+            if a[0] == "i":
+                defined = n <= 30
+            else:
+                pa = (n + 31) // 32
+                defined = pa <= len(a[3:].split(",")) and 1 <= n - 32 * (pa - 1) <= 30
+            if defined:
+                lines.append(("shiftrem %s z%x" % (a, n), None))
     # malformed strings
     for s in ["", " ", "-", "+", "abc", "r10", "1r10", "37r10", "0r1", "16rG", "2r102", "10r", "-16r-5", " +7r66",
               "00000000000000000000000000000000", "36rZZZZZZZZZZZZZZZZZZZZZZZZZ", "16rFFFFFFFFFFFFFFFFg",
@@ -566,6 +624,9 @@ def build_model():
 
 def generate():
     os.makedirs(C.COQ + "/BigInt/extracted", exist_ok=True)
+    # translator: chunk width / multiplier of the scanners, from the current bigint.c
+    from tools import bigint_gen
+    return bigint_gen.generate(C.SRC + "/bigint.c", C.COQ + "/Gen/BigIntRadix.v", C.write_if_changed)
 
 
 # ------------------------------------------------------------------ the direct oracle
@@ -727,6 +788,65 @@ def follow_up(cexe, raw, value):
     return None
 
 
+SHIFTREM_CLASSES = [
+    # (key, what, probes [(line, exact lowest-n-bits value)], normal-form follow-up?)
+    ("shiftrem:immediate-n>=31",
+     "bintShiftRem of an immediate masks with an int: (1 << n) - 1 is wrong for n >= 32 (and undefined from 31)",
+     [("shiftrem i10000000005 z3e", (1 << 40) + 5), ("shiftrem i5 z20", 5), ("shiftrem i3fffffffffffffff z28", (1 << 40) - 1)]),
+    ("shiftrem:allocated-n-multiple-of-32",
+     "bintShiftRem of an allocated number with n a multiple of 32 zeroes the top place kept (1 << 32 on an int)",
+     [("shiftrem s0:5,0,40 z20", 5), ("shiftrem s0:ffffffff,ffffffff,ffffffff z40", (1 << 64) - 1)]),
+    ("shiftrem:allocated-n=0",
+     "bintShiftRem of an allocated number with n = 0: the copy loop bound Placea(r) - 1 wraps and runs off the end",
+     [("shiftrem s0:5,0,40 z0", 0)]),
+    ("shiftrem:result-not-normalised",
+     "bintShiftRem leaves high-order zero places in a result of three or more places (xintImmedIfCan does not drop them)",
+     [("shiftrem s0:5,0,40 z46", 5)]),
+    ("shiftrem:negative-operand",
+     "bintShiftRem of a negative allocated number returns the bits of the magnitude and loses the sign; a negative "
+     "immediate gives the two's-complement bits",
+     [("shiftrem s1:5,0,40 z3", (-((64 << 64) + 5)) % 8), ("shiftrem s1:ffffffff,ffffffff,ffffffff z21", (-((1 << 96) - 1)) % (1 << 33))]),
+    ("shiftrem:n-beyond-places",
+     "bintShiftRem with n beyond the places of an allocated operand copies places the operand does not have",
+     [("shiftrem s0:ffffffff,ffffffff z46", (1 << 64) - 1), ("shiftrem s0:5,0,40 z61", (64 << 64) + 5)]),
+]
+
+
+def shiftrem_findings(rep, cexe):
+    """The classes of bintShiftRem inputs outside the guard of shiftrem_exact on which the real code does not return
+    the lowest n bits in normal form.  Each probe runs in its own child process (one of them does not come back).
+    A class that still misbehaves is reported under its own key; a class that behaves is simply not reported."""
+    seen = []
+    for key, what, probes in SHIFTREM_CLASSES:
+        for line, exact in probes:
+            out = run_lines(cexe, [line], 60)[0]
+            script, outs, why = [line], [out], None
+            tok = out.split(" ")[0] if out else ""
+            try:
+                raw = split_bint(tok)[0]
+                got = raw_value(raw) if raw and raw[0] in "is" else None
+            except Exception:
+                raw, got = None, None
+            if got is None:
+                why = "no result (%s)" % out.strip()[:40]
+            elif got != exact:
+                why = "got %d, the lowest n bits are %d" % (got, exact)
+            elif raw != canon(exact):
+                l2 = "cmp %s %s" % (raw, canon(exact))
+                o2 = run_lines(cexe, [l2], 60)[0]
+                script, outs = [line, l2], [out, o2]
+                if not o2.startswith("b1"):
+                    why = "right value %d returned as %s, which then does not compare equal to it (%s)" % (exact, raw, o2.strip())
+                else:
+                    why = "right value %d returned outside the normal form as %s" % (exact, raw)
+            if why:
+                rep.violation("%s: %s" % (what, why), {"script": script, "c_output": outs, "why": why, "exact": exact}, key=key)
+                seen.append(key)
+                break
+    rep.add_cov(shiftrem_outside_guard={"classes_probed": len(SHIFTREM_CLASSES), "classes_reproduced": seen})
+    return seen
+
+
 def correspondence(rep, tier, only_lines=None):
     cexe = build_c()
     mexe = build_model()
@@ -861,6 +981,8 @@ def correspondence(rep, tier, only_lines=None):
         rep.violation("divide_exact_partial: the model's per-step flag is false on a case where the result is exact",
                       {"script": flags_false[:3]}, no_input=True)
 
+    shiftrem_known = shiftrem_findings(rep, cexe)
+
     rep.add_cov(evaluations=len(script) + len(mal), distinct_nontrivial=len(distinct),
                 traces_validated_against_impl=n_agree + mal_agree,
                 rule="each script line run through the C harness (current bigint.c/foam_i.c) and the extracted model; "
@@ -894,7 +1016,8 @@ def load_corpus():
 
 
 def run(rep, tier):
-    generate()
+    gen = generate()
+    rep.add_cov(regenerated={"coq/Gen/BigIntRadix.v": {"translated": gen[0], "rows": len(gen[1]), "notes": gen[3]}})
     state = {"done": False}
 
     def searcher(log):
@@ -918,7 +1041,17 @@ def run(rep, tier):
         "radix 2..36 is compared with the C at every run)",
         "bintMod/fiBIntMod/fiBIntRem return the remainder with the sign of the dividend (the code's convention, "
         "DESIGN section 4/C11); fiBIntPowerMod the remainder of the exact power",
-        "bintShiftRem, bintPrint*, fiBIntToSFlo/DFlo are outside this property's statement and not checked")
+        "bintShiftRem is modelled and proved on the inputs on which the C is defined (int mask: n <= 30 for an "
+        "immediate; 1 <= n, n mod 32 in 1..30, no more places than b has, for an allocated number), non-negative "
+        "operands, result checked for normal form when it has at most two places or a non-zero top place; outside "
+        "that guard the C shifts an int by >= 31 (undefined) or returns something else than the lowest n bits "
+        "(six classes, each probed in its own child process and reported under its own key shiftrem:<class>; any other "
+        "wrong bintShiftRem result is an ordinary violation)",
+        "chunk width / multiplier of the scanners: regenerated from the current bigint.c text by tools/bigint_gen.py "
+        "(a tiny interpreter for the two loops, unsigned long arithmetic) into coq/Gen/BigIntRadix.v; trusted: that "
+        "interpreter for the statement shapes it accepts (anything else breaks the proof)",
+        "bintPrint*, fiBIntToSFlo/DFlo, xintNeeds, iintAbs/iintNegate, the xint* free-after-use wrappers and the "
+        "dword.c routines bigint.c does not call (xxDivideDouble, xxPlusStep, xxTimesStep) are not modelled")
 
 
 def replay(path):
